@@ -963,6 +963,7 @@ def rule_ffi(rep: Report, repo: Repo, cu: CUnit) -> None:
     rep.rule('C01.FFI', 'Python call sites of _fjcore.Memory agree with the C argument tables: positional counts within '
              'the PyArg format, keywords in kwlist, callback roles (read_bit, write_bit, EOF type) in order, the '
              '5-tuple result destructured in the Py_BuildValue order, attribute names defined as getset/methods', 9)
+    from ..pyfacts import resolve_names as _rn_ffi
     methods = c_method_table(cu)
     getset = c_getset_table(cu)
     fn = repo.func(RUN_REL, '_run_native')
@@ -974,7 +975,7 @@ def rule_ffi(rep: Report, repo: Repo, cu: CUnit) -> None:
             kw = c_kwlist(cu, 'Memory_init')
             lo, hi = _fmt_counts(c_parse_format(cu, 'Memory_init'))
             ok = lo <= len(c.args) + len(c.keywords) <= hi and all(k.arg in kw for k in c.keywords) \
-                and len(c.args) >= 1 and norm(c.args[0]) == 'mem.memory_width' and kw[:1] == ['memory_width']
+                and len(c.args) >= 1 and norm(_rn_ffi(fn, c.args[0], keep=('mem',))) == 'mem.memory_width' and kw[:1] == ['memory_width']
             rep.check(ok, 'C01.FFI', 'Memory(...)', f'args={len(c.args)} kw={[k.arg for k in c.keywords]} vs kwlist {kw}', site)
         elif d.startswith('core.'):
             m = d.split('.')[1]
